@@ -17,6 +17,12 @@ class Call(Expression):
         return f'{self.func}({args})'
 
     def _compile(self, out, flags):
+        if not self.args:
+            # "X()" is the rule X itself: it has to share the entry that "X"
+            # has in the memo table.
+            self.func._compile(out, flags)
+            return
+
         args, kwargs = [], []
 
         for arg in self.args:
